@@ -314,3 +314,9 @@ Qed.
 Lemma nbns_query_refuses c src dst seq name junk :
   (16 < length name)%nat -> send_nbns_query c src dst seq name junk = Ok [].
 Proof. intros H. unfold send_nbns_query. destruct (Nat.ltb_spec 16 (length name)); [reflexivity|lia]. Qed.
+
+(* the MAC of the source Addr plays no role in the dns_naming paths: the Ethernet source is the NIC MAC *)
+Lemma udp_src_mac_irrelevant c buf sm sm' si dst port seq name junk :
+  send_mdns c buf (sm, si) dst port = send_mdns c buf (sm', si) dst port /\
+  send_nbns_query c (sm, si) dst seq name junk = send_nbns_query c (sm', si) dst seq name junk.
+Proof. split; reflexivity. Qed.
